@@ -3,7 +3,7 @@
    (what the code does) and C08/Spec.v (what a valid file is; wf_state). *)
 From Coq Require Import List NArith ZArith Bool String Ascii Permutation Reals.
 From T4V Require Import Base.Str C08.Model C08.Spec C08.ProofsSets C08.ProofsWrite C08.ProofsPrune
-     C08.ProofsTail C08.SurfEq C08.Parse C08.ProofsChars C08.ProofsParse C08.ProofsGiven C08.CheckText C08.Check C08.ProofsRefute.
+     C08.ProofsTail C08.SurfEq C08.Parse C08.ProofsChars C08.ProofsParse C08.ProofsGiven C08.ProofsEnd C08.CheckText C08.Check C08.ProofsRefute.
 Import ListNotations.
 
 (* VolumeT4.__str__: for EVERY volume (no hypothesis), each declared count equals the
@@ -170,6 +170,28 @@ Print Assumptions C08_numbers_finite.
 Theorem C08_words_okb_sound : forall (E : Type) (w : wstate E), words_okb w = true -> words_ok w.
 Proof. intros E. exact (@words_okb_sound E). Qed.
 Print Assumptions C08_words_okb_sound.
+
+(* THE WHOLE PROPERTY TEXT, END TO END, AT THE LEVEL OF CHARACTERS.  From the tables
+   construct_volume_t4 returns (stage0_ok, words_ok: facts about code outside this model,
+   checked on every snapshot by tie:stage0 and tie:text), for every option combination: the
+   tail of the conversion does not raise before the file is opened, and either every volume
+   was pruned away (header only), or the file f it leaves
+   - satisfies every structural clause (wf_file),
+   - is read back from its own characters by the reader as exactly f,
+   - and has only numeric fields that are numeric strings of the tables (so they are finite
+     numbers whenever those are, for any notion of finite).
+   Stated for the concrete SurfaceT4.__eq__ at R: no hypothesis on the surface equality *)
+Theorem C08_convert_tail_text_wf_R :
+  forall skip_dedup u0 u1 (w : wstate (spayload R)),
+  stage0_ok Req_payload u0 u1 w -> words_ok w ->
+  exists o, convert_tail Req_payload skip_dedup u0 u1 w = Ok o /\
+    (o = Died false [] EValue \/
+     exists f, (o = Complete f \/ exists e, o = Raised f e) /\
+               wf_file f /\ parse_t4 (print_t4 f) = Some f /\
+               forall finite : string -> Prop,
+                 Forall finite (state_numbers w) -> Forall finite (file_numbers f)).
+Proof. exact (convert_tail_text_wf Req_payload Req_payload_sym Req_payload_trans). Qed.
+Print Assumptions C08_convert_tail_text_wf_R.
 
 (* ---- open defects: a composition that is named but not written.  The hypothesis cell_named
    (s0_cells / ws_cells) of the theorems above cannot be dropped: with closed tables, a cell
